@@ -16,6 +16,7 @@ from ..core import Result, Violation
 from ..seqmc import values as V
 
 P = "C05"
+TIER = ["quick"]
 HEX64 = re.compile(r"^[0-9a-f]{64}$")
 OK_CODES = {"TYPE_NOT_SUPPORTED", "SEQUENCE_TOO_LONG"}
 
@@ -75,7 +76,7 @@ def check_pair(ea, va, eb, vb):
         if ca != cb:
             w = V.witness(ca, cb)
             return [Violation(P, f"C05|collision|{w[0]}~{w[1]}", f"dds_hash({ea}) == dds_hash({eb})",
-                              {"mode": "pair", "a": ea, "b": eb})]
+                              {"mode": "pair", "a": ea, "b": eb, "tier": TIER[0]})]
     return []
 
 
@@ -182,6 +183,7 @@ def _foreign_table(tier, hashseed):
 
 def run(tier, seed):
     res = Result(P, "exploration")
+    TIER[0] = tier
     uni = V.universe(tier)
     table = {}
     groups = {}
@@ -268,6 +270,10 @@ def replay(case):
     if m == "total":
         return check_total(case["expr"], V.ev(case["expr"]))
     if m == "pair":
+        # hash the whole universe first, in the order of the run: an implementation with hidden state (a memo) may only
+        # collide after other values have been hashed
+        for e, v in V.universe(case.get("tier", "quick")):
+            outcome(v)
         return check_pair(case["a"], V.ev(case["a"]), case["b"], V.ev(case["b"]))
     if m == "size":
         return check_size(case["kind"], case["n"], case["expr"])
